@@ -85,6 +85,9 @@ pub struct Judge {
     pub battery: bool,
 }
 
+const CHAIN_HEADS: [&str; 5] = ["next_x_k", "nth_k", "skip_k", "by_ref_take_k_for_each", "step_by_k"];
+const CHAIN_TAILS: [&str; 5] = ["fold", "for_each", "last", "count", "for_loop"];
+
 /// How a whole argument sequence is consumed from a fresh `evaluate_v` stream in one go
 /// (the consumer methods a caller may use instead of plain `next()`).
 #[derive(Clone, Copy, Debug, PartialEq, Eq)]
@@ -110,6 +113,13 @@ pub enum BatchMode {
     /// input is an UNBOUNDED iterator (`xs.cycle()`, size_hint = (usize::MAX, None)); the first
     /// `xs.len()` results are taken
     CycleInput,
+    /// a two-stage consumption of one stream: a *head* that advances it part of the way
+    /// (0: `next()` k times; 1: `nth(k)`; 2: the adaptor `skip(k)`; 3: `by_ref().take(k).for_each`;
+    /// 4: the adaptor `step_by(k)`), then a *tail* that finishes it through another method
+    /// (0: `fold`; 1: `for_each`; 2: `last`; 3: `count`; 4: a plain `for` loop), over the simulator's
+    /// feed or over a `Vec` (exact size hint). What a hand-written iterator with its own
+    /// `fold`/`nth`/`last`/`count` gets wrong when its cursor is already past the start.
+    Chain { head: u8, k: usize, tail: u8, vec_input: bool },
 }
 
 #[derive(Clone, Debug)]
@@ -592,20 +602,23 @@ pub fn execute(scn: &CursorScn, judge: Judge, cov: &mut Cov, prog: &Progress) ->
             }
         };
         cov.hit("stream_batches");
+        if matches!(b.mode, BatchMode::Chain { .. }) {
+            cov.hit("stream_batches_two_stage_chain");
+        }
         if !judge.streams {
             continue;
         }
-        if got.pulled != b.xs.len() as u64 && !matches!(b.mode, BatchMode::VecInput | BatchMode::CycleInput) {
+        if got.pulled != b.xs.len() as u64 && !matches!(b.mode, BatchMode::VecInput | BatchMode::CycleInput | BatchMode::Chain { vec_input: true, .. }) {
             return RunResult::Violation {
                 class: "laziness".into(),
                 detail: format!("batch {bi}: consuming evaluate_v with {:?} pulled {} of the {} arguments", b.mode, got.pulled, b.xs.len()),
             };
         }
         if let Some(c) = got.count {
-            if c != b.xs.len() {
+            if c != got.count_due.unwrap_or(b.xs.len()) {
                 return RunResult::Violation {
                     class: "mismatch".into(),
-                    detail: format!("batch {bi}: evaluate_v(..).count() = {c} for {} arguments", b.xs.len()),
+                    detail: format!("batch {bi}: evaluate_v(..) consumed with {:?}: count() = {c} where {} was due ({} arguments)", b.mode, got.count_due.unwrap_or(b.xs.len()), b.xs.len()),
                 };
             }
         }
@@ -1142,7 +1155,17 @@ pub fn gen_scenario(rng: &mut Rng, profile: Profile, tier: Tier) -> CursorScn {
                 prev = Some(x);
                 xs.push(x);
             }
-            let mode = match rng.below(8) {
+            let mode = match rng.below(10) {
+                8 | 9 => {
+                    let head = rng.below(5) as u8;
+                    let k = match head {
+                        1 => rng.usize_in(0, len.max(1)).min(len.saturating_sub(1)),
+                        4 => rng.usize_in(1, 5),
+                        _ => rng.usize_in(0, len.max(1)).min(len),
+                    };
+                    let head = if len == 0 && head == 1 { 0 } else { head };
+                    BatchMode::Chain { head, k, tail: rng.below(5) as u8, vec_input: rng.chance(1, 3) }
+                }
                 0 => BatchMode::Collect,
                 1 => BatchMode::Fold,
                 2 => BatchMode::Count,
@@ -1264,6 +1287,7 @@ pub fn order_type(ends_per_func: &[Vec<f64>], scn: &CursorScn) -> u64 {
             BatchMode::Skip(k) => (1 << 20) + k as u64,
             BatchMode::StepBy(k) => (2 << 20) + k as u64,
             BatchMode::ByRefTake(k) => (3 << 20) + k as u64,
+            BatchMode::Chain { head, k, tail, vec_input } => (4 << 20) + ((head as u64) << 40) + ((tail as u64) << 44) + ((vec_input as u64) << 48) + k as u64,
         });
         for &x in &b.xs {
             d.word(rank(x));
@@ -1654,6 +1678,7 @@ pub fn scn_to_json(scn: &CursorScn) -> Value {
                 BatchMode::Skip(k) => json!({"skip": k}),
                 BatchMode::StepBy(k) => json!({"step_by": k}),
                 BatchMode::ByRefTake(k) => json!({"by_ref_take": k}),
+                BatchMode::Chain { head, k, tail, vec_input } => json!({"chain_head": CHAIN_HEADS[head as usize % 5], "k": k, "chain_tail": CHAIN_TAILS[tail as usize % 5], "vec_input": vec_input}),
             },
             "xs": fj_list(&b.xs),
         })).collect::<Vec<_>>(),
@@ -1734,6 +1759,16 @@ pub fn scn_from_json(v: &Value) -> Result<CursorScn, String> {
                         "unbounded_cycle_input+take" => BatchMode::CycleInput,
                         x => return Err(format!("bad consume_with {x}")),
                     },
+                    Some(o) if o.get("chain_head").is_some() => {
+                        let pos = |key: &str, names: &[&str]| -> Result<u8, String> {
+                            let v = o.get(key).and_then(|v| v.as_str()).ok_or(format!("missing {key}"))?;
+                            names.iter().position(|n| *n == v).map(|i| i as u8).ok_or(format!("bad {key} {v}"))
+                        };
+                        let head = pos("chain_head", &CHAIN_HEADS)?;
+                        let tail = pos("chain_tail", &CHAIN_TAILS)?;
+                        let k = jusize(o, "k")?;
+                        BatchMode::Chain { head, k: if head == 4 { k.max(1) } else { k }, tail, vec_input: o.get("vec_input").and_then(|v| v.as_bool()).unwrap_or(false) }
+                    }
                     Some(o) if o.get("skip").is_some() => BatchMode::Skip(jusize(o, "skip")?),
                     Some(o) if o.get("step_by").is_some() => BatchMode::StepBy(jusize(o, "step_by")?.max(1)),
                     Some(o) if o.get("by_ref_take").is_some() => BatchMode::ByRefTake(jusize(o, "by_ref_take")?),
@@ -1958,7 +1993,7 @@ impl World for C12 {
         check_plain(scn, Judge { evals: false, streams: true, build: false, battery: false }, cov, prog)
     }
     fn rule(&self) -> String {
-        format!("Each run: 1-5 seeded piecewise functions, 1-9 evaluate_v streams fed through a simulator-owned lazy iterator (bursts of feeds, then pulls, interleaved across streams by the PRNG, with cancel/restart and in-place mutation of the function between stream lifetimes), plus up to two whole-sequence consumptions of fresh streams (collect, fold, count, last, nth, skip, step_by, peekable, by_ref+take, size_hint, Vec input, unbounded cycle input; 0-300 arguments, rarely up to 70 000); per pull: exactly one input consumed, result compared bit for bit with pointwise evaluation (non-decreasing prefix) or with the segment selected for the running maximum (after a decrease). {ORDER_RULE}")
+        format!("Each run: 1-5 seeded piecewise functions, 1-9 evaluate_v streams fed through a simulator-owned lazy iterator (bursts of feeds, then pulls, interleaved across streams by the PRNG, with cancel/restart and in-place mutation of the function between stream lifetimes), plus up to two whole-sequence consumptions of fresh streams (collect, fold, count, last, nth, skip, step_by, peekable, by_ref+take, size_hint, Vec input, unbounded cycle input, and two-stage chains: next×k / nth / skip / by_ref+take / step_by followed by fold / for_each / last / count / for-loop; 0-300 arguments, rarely up to 70 000); per pull: exactly one input consumed, result compared bit for bit with pointwise evaluation (non-decreasing prefix) or with the segment selected for the running maximum (after a decrease). {ORDER_RULE}")
     }
     fn assumptions(&self) -> Vec<String> {
         let mut a = common_assumptions();
